@@ -46,6 +46,8 @@ type peerRec struct {
 	p        *WebRTCPeer
 	idx      int
 	closedAt int64 // event clock when its Close completed (0: not yet)
+	// virtual instant at which its Close completed (-1: not yet)
+	closedTime time.Duration
 }
 
 type c15World struct {
@@ -90,7 +92,7 @@ func (t c15Tongue) Catch() (*WebRTCPeer, error) {
 		vs.Sleep(3 * time.Second)
 	}
 	p := &WebRTCPeer{closed: make(chan struct{})}
-	rec := &peerRec{p: p, idx: len(w.recs)}
+	rec := &peerRec{p: p, idx: len(w.recs), closedTime: -1}
 	w.recs = append(w.recs, rec)
 	// capacity oracle: peers obtained and not closed
 	live := 0
@@ -131,10 +133,12 @@ func init() {
 			selfClose := []time.Duration{-1, 500 * time.Millisecond, 11 * time.Second}[vs.Choose("selfclose", 3)]
 			// pops by the data path
 			nPop := vs.Choose("pops", 3)
+			// the data path starts asking at 1 s, or at 10.5 s (while the second rendezvous may be in flight)
+			popFirst := []time.Duration{time.Second, 10500 * time.Millisecond}[vs.Choose("popfirst", 2)]
 			// End calls: instants of the first and (optionally) second call
 			end1 := []time.Duration{1 * time.Second, 10 * time.Second, 12 * time.Second}[vs.Choose("end1", 3)]
 			end2 := []time.Duration{-1, 0, 5 * time.Second}[vs.Choose("end2", cfgInt(x, "end2s", 3))]
-			x.Outcome(fmt.Sprintf("max=%d script=%v selfclose=%v pops=%d end1=%v end2=+%v", w.max, w.script, selfClose, nPop, end1, end2))
+			x.Outcome(fmt.Sprintf("max=%d script=%v selfclose=%v pops=%d from %v end1=%v end2=+%v", w.max, w.script, selfClose, nPop, popFirst, end1, end2))
 
 			var err error
 			w.peers, err = NewPeers(c15Tongue{w})
@@ -145,7 +149,11 @@ func init() {
 			if nPop > 0 {
 				vs.GoRole("popper", vs.RoleDaemon, func() {
 					for i := 0; i < nPop; i++ {
-						vs.Sleep(time.Second) // the data path asks for a peer once per second
+						if i == 0 {
+							vs.Sleep(popFirst)
+						} else {
+							vs.Sleep(time.Second) // the data path asks for a peer once per second
+						}
 						start := w.tick()
 						p := w.peers.Pop()
 						w.tick()
@@ -162,6 +170,11 @@ func init() {
 						if r.closedAt != 0 && r.closedAt < start && w.popBad == "" {
 							w.popBad = fmt.Sprintf("Pop returned peer %d, whose Close had completed before Pop was called", r.idx)
 						}
+						// virtual time: computation is instantaneous, so a peer closed at an EARLIER instant than the
+						// one at which Pop returns it was already closed while Pop was still waiting for something
+						if now := vs.Elapsed(); r.closedTime >= 0 && r.closedTime < now && w.popBad == "" {
+							w.popBad = fmt.Sprintf("Pop returned peer %d at %v; its Close had completed at %v", r.idx, now, r.closedTime)
+						}
 						if w.endReturned != 0 && w.endReturned < start && w.popAfterEndNonNil == "" {
 							w.popAfterEndNonNil = fmt.Sprintf("Pop called after End returned yields peer %d instead of nil", r.idx)
 						}
@@ -176,6 +189,7 @@ func init() {
 						r.p.Close()
 						if r.closedAt == 0 {
 							r.closedAt = w.tick()
+							r.closedTime = vs.Elapsed()
 						}
 					}
 				})
